@@ -67,6 +67,7 @@ fn setup_profile(rng: &mut Rng) -> Profile {
         bad_permille: 10,
         load_fault_permille: 0,
         abuse_permille: 0,
+        io_fault_permille: 0,
     }
 }
 
@@ -162,6 +163,7 @@ pub fn prepare(seed: u64, n_clients: usize, ops_per_client: usize, forced: &[K],
             bad_permille: 20,
             load_fault_permille: 0,
             abuse_permille: 0,
+            io_fault_permille: 0,
         };
         for c in 0..n_clients {
             let mut ops = Vec::new();
